@@ -6,6 +6,7 @@
 //                                        mode = pf  shared_future(fn(promise))          -- promise handed to the resolver inside the constructor
 //                                               ff  shared_future(fn -> future<T>)      -- fn returns a pending future
 //                                               gp  shared_future(); get_promise()      -- late initialisation of a default-constructed object
+//                                               ip  shared_future(); init_if_needed(); copies for the `h` threads; get_promise()
 //                                               ls  shared_future(); init_if_needed(); operator<<(fn -> pending future)
 //                                               sv <v> / se <c>   fn returns future<T>::set_value(v) / set_exception(c)  (what the static factories do)
 //   t c <act>...                         thread 0: constructs the object (mode), hands one copy to every `h` thread, then runs its program
@@ -217,6 +218,21 @@ struct Scn {
                 auto p = sf->get_promise();
                 take(p);
             }
+        } else if (mode == "ip") {
+            // the owner initialises the state first and hands out copies BEFORE get_promise(): those copies must share
+            // the state that get_promise() initialises (they are only awaited once it is initialised: contract)
+            sf.emplace();
+            std::string before = std::string("default ready=") + (sf->ready() ? "1" : "0") + " value=" +
+                                 observe([&]() -> decltype(auto) { return sf->value(); });
+            log(before);
+            sf->init_if_needed();
+            track_state(sf->_ptr.get());
+            for (std::size_t i = 1; i < threads.size(); i++)
+                if (threads[i][1] == "h") hs[i].push_back(*sf);
+            {
+                auto p = sf->get_promise();
+                take(p);
+            }
         } else if (mode == "ls") {
             sf.emplace();
             sf->init_if_needed();
@@ -228,9 +244,11 @@ struct Scn {
             sf.emplace([&] { return future<T>::set_exception(std::make_exception_ptr(test_exc(arg))); });
         }
         S().name_obj(&sf->_ptr->_awaiter, "slot");
-        track_state(sf->_ptr.get());
-        for (std::size_t i = 1; i < threads.size(); i++)
-            if (threads[i][1] == "h") hs[i].push_back(*sf);
+        if (mode != "ip") {
+            track_state(sf->_ptr.get());
+            for (std::size_t i = 1; i < threads.size(); i++)
+                if (threads[i][1] == "h") hs[i].push_back(*sf);
+        }
         hs[0].push_back(std::move(*sf));
         sf.reset();
         constructed = true;
